@@ -290,8 +290,12 @@ func (q *queue) sendLowTimeout(msg *Message, timeout time.Duration) error {
 		return types.ErrChannelClosed
 	}
 	if timeout == -1 {
-		sub.low <- msg
-		return nil
+		select {
+		case sub.low <- msg:
+			return nil
+		case <-sub.done:
+			return types.ErrChannelClosed
+		}
 	}
 	if timeout == 0 {
 		return q.sendAsyn(msg)
@@ -301,6 +305,8 @@ func (q *queue) sendLowTimeout(msg *Message, timeout time.Duration) error {
 	select {
 	case sub.low <- msg:
 		return nil
+	case <-sub.done:
+		return types.ErrChannelClosed
 	case <-t.C:
 		qlog.Error("send asyn timeout", "msg", msg)
 		return ErrQueueTimeout
